@@ -517,8 +517,10 @@ class MQTTBaseProtocol(Protocol):
         if self._pingReq.alarm:
             self._pingReq.alarm.cancel()
             self._pingReq.alarm = None
-        self.doConnectionLost(reason)
+        # back to IDLE first: doConnectionLost() fires the errbacks of the pending requests, and an
+        # application that calls the API again from such an errback must not be served as if connected
         self.state = self.IDLE
+        self.doConnectionLost(reason)
         # The disconnect callback is invoked in another reactor loop cycle
         # Otherwise, the reconnection attempt happens before connection cleanup
         # which obviopusly it si not what we want.
